@@ -47,13 +47,42 @@ def beh(b, it):
     return '(BRecur %d)' % b[1]
 
 
-def prog_term(spec):
-    """Coq source of the program (a [prog]) and the interner used for names."""
+def rdag(o):
+    return ('{| d_nodes := %s; d_src := %s; d_dst := %s; d_rec := %s; d_oneof := %s; d_nested := %s |}'
+            % (lst(key(n) for n in o['nodes']), key(o['source']), key(o['dest']), str(bool(o['rec'])).lower(),
+               str(bool(o['oneof'])).lower(), str(bool(o['nested'])).lower()))
+
+
+def order_tables(orders, descs):
+    """the launch / successor orders recorded from the real chart, as the two association lists of mk_prog
+    (same de-duplication as runmodel.prog_fields)"""
+    import json
+    seen = {}
+    for o in orders or ():
+        if o['source'] is None or o['dest'] is None:
+            continue
+        seen[json.dumps([o['source'], o['dest'], o['rec'], o['oneof'], o['nested'], sorted(map(json.dumps, o['nodes']))])] = o
+    ot = lst('(%s, %s)' % (rdag(o), lst(key(n) for n in o['order'])) for o in seen.values())
+    st = lst('(%s, %s)' % (key(json.loads(k)), lst(key(n) for n in v)) for k, v in (descs or {}).items())
+    return ot.replace('); ({|', ');\n     ({|'), st
+
+
+def prog_term(spec, orders=None, descs=None, marks_first=False):
+    """Coq source of the program (a [prog]) and the interner used for names.
+    marks_first: intern the labels inside a parameter's mark before the parameter name, as runmodel.prog_fields does
+    (so that the term and the s-expression sent to the extracted driver denote literally the same program)."""
     ps.spec_defaults(spec)
     it = M.Interner()
     decls, behs = [], []
     for nd in spec['nodes']:
-        params = lst('(%d, %s)' % (it.id(pn), mark(m, it)) for pn, m in nd['params'])
+        if marks_first:
+            pl = []
+            for pn, m in nd['params']:
+                mk = mark(m, it)
+                pl.append('(%d, %s)' % (it.id(pn), mk))
+            params = lst(pl)
+        else:
+            params = lst('(%d, %s)' % (it.id(pn), mark(m, it)) for pn, m in nd['params'])
         delay = None if nd['delay'] is None else int(round(nd['delay'] * 10))
         decls.append('{| ns_params := %s; ns_mode := %s; ns_attempts := %s; ns_delay := %s; ns_excs := %s; ns_default := %s |}'
                      % (params, MODE[nd['mode']], opt(nd['attempts'], lambda z: '%d%%Z' % z), opt(delay),
@@ -64,8 +93,9 @@ def prog_term(spec):
     sf = lst('(%s, %d)' % (key(f[0]), f[1]) for f in spec['store_faults'])
     store = {'none': 'StNone', 'record': 'StRecord', 'writeonce': 'StWriteOnce'}[spec['store']]
     pools = spec.get('pools', [True, True])
-    term = ('mk_prog\n    %s\n    %s\n    %s %d %s %s %s %s %s [] [] %s %s'
+    ot, stb = order_tables(orders, descs)
+    term = ('mk_prog\n    %s\n    %s\n    %s %d %s %s %s %s %s\n    %s\n    %s %s %s'
             % (lst(decls).replace('; {|', ';\n     {|'), lst(behs).replace('; {|', ';\n     {|'), inp, spec['managers'],
-               'true' if spec['mgr_gated'] else 'false', mf, store, 'true' if spec['store_gated'] else 'false', sf,
+               'true' if spec['mgr_gated'] else 'false', mf, store, 'true' if spec['store_gated'] else 'false', sf, ot, stb,
                'true' if pools[0] else 'false', 'true' if pools[1] else 'false'))
     return term, it
